@@ -199,6 +199,18 @@ func (ld *Loaded) redirect(fn *ssa.Function) *ssa.Function {
 			m = rt.Func(name)
 		}
 	}
+	if fn.Pkg != nil && fn.Signature.Recv() == nil && m == nil && !strings.HasPrefix(fn.Pkg.Pkg.Path(), "github.com/safing/portbase") && fn.Name() != "init" {
+		// functions of dependencies: VerifModel_<pkg>_<Func> in a harness package
+		name := "VerifModel_" + fn.Pkg.Pkg.Name() + "_" + fn.Name()
+		for path, pkg := range ld.pkgs {
+			if strings.HasPrefix(path, "github.com/safing/portbase") && path != rtPkgPath {
+				if f := pkg.Func(name); f != nil {
+					m = f
+					break
+				}
+			}
+		}
+	}
 	if fn.Pkg != nil && fn.Signature.Recv() != nil && m == nil {
 		// methods of dependencies: a harness may supply a model named
 		// VerifModel_<pkg>_<Type>_<Method>(recv, args...) in its own package
